@@ -681,9 +681,14 @@ class Builtins:
                 # only under sum(): an element filtered out contributes 0
                 conds = [truth(cx, self.it.ev(c, fr)) for c in g.ifs]
                 ct = z3.And(*[c if not isinstance(c, bool) else z3.BoolVal(c) for c in conds])
-                if not isinstance(val, (int, SInt)):
+                if isinstance(val, SList):
+                    # sum([f(x) for x in L if c(x)], []): the filter is handed to the contract (with the assumptions made for the
+                    # generic element), which may demand that it never excludes an element
+                    cx.ghost.setdefault("flat_map_filters", []).append((rng, list(cx.pc[mark_pc + 1:]), ct))
+                elif not isinstance(val, (int, SInt)):
                     raise Unsupported("filtered sum of non-int elements")
-                val = SInt(z3.If(ct, to_term_int(val), 0))
+                else:
+                    val = SInt(z3.If(ct, to_term_int(val), 0))
         finally:
             cx.ghost["generic"] -= 1
         if cx.pos != mark_pos:
@@ -715,6 +720,7 @@ class Builtins:
         if raised:
             if cx.choose("comprehension-element-raises"):
                 raise PyRaise(SExc(raised[0], opaque=True))
+        self._last_generic_val = val
         return self._generalise(val, j, sub, src)
 
     def abstract_filter(self, e, fr, src: SList, g):
@@ -839,7 +845,17 @@ class Builtins:
             lst = self.comprehension(comp, fr, "list")
             extra = [self.it.ev(r, fr) for r in rest]
             return self.call(fname, None, [lst] + extra, {}, fr)
+        self._last_generic_val = None
         lst = self.abstract_map(comp, fr, src, g, sum_filter=(fname == "sum"))
+        if (fname == "sum" and len(rest) == 1 and isinstance(rest[0], ast.List) and not rest[0].elts
+                and isinstance(self._last_generic_val, SList)):
+            # sum([f(x) for x in L], []) with list-valued f: the concatenation of the per-element lists -- a NEW list of unknown
+            # length and content (over-approximation); which elements of L contributed is recorded: all of them, unless a filter
+            # was recorded in ghost["flat_map_filters"]
+            out = self.cx.opaque_list(self.cx.int("n_flat_map", lo=0), fresh=True, label="flat-map")
+            out.ghost["flat_map_over"] = src
+            self.cx.ghost.setdefault("flat_maps", []).append(src)
+            return out
         extra = [self.it.ev(r, fr) for r in rest]
         return self.call(fname, None, [lst] + extra, {}, fr)
 
